@@ -57,7 +57,12 @@ type file struct {
 var defaultFile file
 
 // register ensures that the counter c is registered with the file.
-func (f *file) register(c *Counter) {
+// It reports whether c is reachable from the file's list of counters, which it
+// is not yet when another goroutine is half-way through registering it.
+func (f *file) register(c *Counter) bool {
+	if c.linked.Load() {
+		return true
+	}
 	debugPrintf("register %s %p\n", c.Name(), c)
 
 	// If counter is not registered with file, register it.
@@ -83,17 +88,17 @@ func (f *file) register(c *Counter) {
 		}
 		if f.counters.CompareAndSwap(head, c) {
 			debugPrintf("registered %s %p\n", c.Name(), f.counters.Load())
-			// Another goroutine may have seen c.next set and used c before it
-			// was reachable from the list. If the file was opened meanwhile,
-			// invalidateCounters did not visit c: refresh it now.
-			if f.current.Load() != nil {
-				c.invalidate()
-				c.refresh()
-			}
-			return
+			c.linked.Store(true)
+			// Other goroutines may have parked counts in c while it was not
+			// yet reachable from the list, and invalidateCounters did not
+			// visit it meanwhile: refresh it now.
+			c.invalidate()
+			c.refresh()
+			return true
 		}
 		debugPrintf("register %s cas2 failed %p %p\n", c.Name(), f.counters.Load(), head)
 	}
+	return c.linked.Load()
 }
 
 // invalidateCounters marks as invalid all the pointers
